@@ -50,13 +50,7 @@ Theorem C15_prune_subtree : forall k b kids c loc s,
   exists n, proc coded (Role None k b kids) c loc = Ok n /\
             node_enabled coded n = false /\ onode_kids n = [] /\
             forall ns, ~ In n (filter (node_enabled coded) ns).
-Proof.
-  exact (fun k b kids c loc s Ev Ht =>
-           match disabled_child coded k b kids c loc s Ev Ht with
-           | ex_intro _ n (conj E (conj Hd Hk)) =>
-             ex_intro _ n (conj E (conj Hd (conj Hk (fun ns => filter_drops _ ns n Hd))))
-           end).
-Qed.
+Proof. exact (disabled_child_dropped coded). Qed.
 Print Assumptions C15_prune_subtree.
 
 (* the children of an aggregator are exactly the enabled results of its child templates, in
